@@ -928,19 +928,23 @@ def unroll_circuit_op_greedy_earliest(
     unrolled_circuit.batch_replace(batch_replace)
     unrolled_circuit.batch_remove(batch_remove)
     # Place the operations of each unrolled circuit operation as early as possible, but never
-    # behind an operation that came after it: inserting them all at index i with the EARLIEST
-    # strategy lets later ones share moments i+1, i+2, ... and end up behind operations of those
-    # moments.  Going from the last index to the first keeps the earlier indices valid.
+    # behind an operation that came after it nor in front of one that came before it: the result
+    # is rebuilt from the first moment to the last, and the contents of the circuit operations
+    # of moment i are appended, with the EARLIEST strategy, to what precedes and includes it.
     ops_by_index: dict[int, list[cirq.Operation]] = defaultdict(list)
     for i, unrolled_ops in batch_insert:
         ops_by_index[i].extend(unrolled_ops)
-    for i in sorted(ops_by_index, reverse=True):
-        head = unrolled_circuit[: i + 1]
-        head.append(ops_by_index[i], strategy=circuits.InsertStrategy.EARLIEST)
-        if not head[i].operations:
+    result = circuits.Circuit(tags=unrolled_circuit.tags)
+    next_index = 0
+    for i in sorted(ops_by_index):
+        result += unrolled_circuit[next_index : i + 1]
+        position = len(result) - 1
+        result.append(ops_by_index[i], strategy=circuits.InsertStrategy.EARLIEST)
+        if not result[position].operations:
             # The moment only held circuit operations and their contents went to earlier moments.
-            del head[i]
-        unrolled_circuit = head + unrolled_circuit[i + 1 :]
+            del result[position]
+        next_index = i + 1
+    unrolled_circuit = result + unrolled_circuit[next_index:]
     return _to_target_circuit_type(unrolled_circuit, circuit)
 
 
